@@ -359,6 +359,32 @@ def tlc_validate(ctx, wd, traces, n, w, strict, tag, calls=1):
     return out['reached'], out['failing']
 
 
+def corrupted_twins(traces):
+    """Binding self-test: corrupted copies of a recorded trace that the trace specification must not accept.
+    Returns [(kind, trace)]: 'drop' = one event removed (strict mode must reject it), 'payload' = a dependent that
+    saw its DONE dependency without payload (observer mode must report C01_PayloadVisible)."""
+    import copy
+    out = []
+    for tr in traces:
+        if tr.get('pruned') or tr['verdict'] != 'ok' or len(tr['events']) < 12:
+            continue
+        idx = [i for i, e in enumerate(tr['events']) if any(x.get('st') == 'DONE' and x.get('pay') == 2 for row in e['seen'] for x in row)]
+        if not idx:
+            continue
+        t1 = copy.deepcopy(tr)
+        del t1['events'][len(t1['events']) // 2]
+        out.append(('drop', t1))
+        t2 = copy.deepcopy(tr)
+        for e in t2['events'][idx[0]:]:
+            for row in e['seen']:
+                for x in row:
+                    if x.get('st') == 'DONE':
+                        x['pay'] = 0
+        out.append(('payload', t2))
+        break
+    return out
+
+
 def judge_traces(ctx, traces, n, w, wd=None, tag='t', calls=1):
     """Property-level judgement (observer mode) + drift detection (strict mode) of recorded traces.
     Returns the number of traces violating an invariant owned by ctx.pid."""
@@ -367,8 +393,16 @@ def judge_traces(ctx, traces, n, w, wd=None, tag='t', calls=1):
     nbad = 0
     if not traces:
         return 0
+    twins = corrupted_twins(traces) if hasattr(ctx, 'cov') and isinstance(getattr(ctx, 'cov', None), dict) and 'tlc_runs' in ctx.cov else []
     # observer: invariants on implementation states
-    reached, failing = tlc_validate(ctx, wd, traces, n, w, False, tag + 'o', calls)
+    reached, failing = tlc_validate(ctx, wd, traces + [t for _, t in twins], n, w, False, tag + 'o', calls)
+    for (kind, tw), fl in zip(twins, failing[len(traces):]):
+        if kind == 'payload' and 'C01_PayloadVisible' not in fl:
+            raise tlc.MachineryError('binding self-test: SchedTrace (observer) accepts a trace in which a dependent saw its DONE dependency '
+                                     'without payload')
+    if twins:
+        ctx.cov['corrupted_traces_rejected'] = ctx.cov.get('corrupted_traces_rejected', 0) + 1
+    reached, failing = reached[:len(traces)], failing[:len(traces)]
     owns = OWNS[ctx.pid]
     for tr, r, fl in zip(traces, reached, failing):
         if r != len(tr['events']) + 2:
@@ -386,7 +420,13 @@ def judge_traces(ctx, traces, n, w, wd=None, tag='t', calls=1):
                           '(verdict %s, master raised %r)' % (mine, tr['verdict'], tr['raised']),
                           dict(cfg=tr['cfg'], schedule=tr['schedule'], failing=mine), module='conf_sched')
     # strict: does the implementation still follow the implementation-level model?
-    reached, _ = tlc_validate(ctx, wd, full, n, w, True, tag + 's', calls)
+    drops = [t for k, t in twins if k == 'drop']
+    reached, _ = tlc_validate(ctx, wd, full + drops, n, w, True, tag + 's', calls)
+    for tw, r in zip(drops, reached[len(full):]):
+        if r == len(tw['events']) + 2:
+            raise tlc.MachineryError('binding self-test: SchedTrace (strict) accepts a trace with one event removed')
+        ctx.cov['corrupted_traces_rejected'] = ctx.cov.get('corrupted_traces_rejected', 0) + 1
+    reached = reached[:len(full)]
     ndrift = 0
     for tr, r in zip(full, reached):
         if r != len(tr['events']) + 2 and tr['verdict'] == 'ok':
